@@ -1472,6 +1472,13 @@ def handle_method(it, h, name, args, kwargs):
     ctx = it.ctx
     if name == 'read':
         io_may_fail(it, 'read', h.path)
+        if args and args[0] is not None and not (isinstance(args[0], int) and args[0] < 0) and isinstance(h.content, SBytes):
+            # read(n): at most n bytes
+            n = zint(args[0])
+            ln = zint(h.content.ln)
+            return SBytes(h.content.arr, h.content.off, simp(z3.If(n < ln, n, ln)), h.content.kind, h.content.root)
+        if args and args[0] is not None and not isinstance(h.content, SBytes):
+            raise Unsupported("read(n) on a text handle")
         return h.content
     if name == 'readlines':
         io_may_fail(it, 'read', h.path)
